@@ -17,10 +17,18 @@ TRef == /\ IsEvent("ref") /\ Strict
         /\ Ev.hasrep => Ev.repdec = content
         /\ hasrep' = Ev.hasrep /\ rep' = Ev.rep
         /\ UNCHANGED <<content, gzs, cur, hist>>
+(* get: strictly admitted, or explained by open known findings.  Two kinds of deviation can meet
+   in one answer: "C32-gzip-q0" (Accept-Encoding: gzip;q=0 is treated as accepting gzip) and one of
+   the range deviations; used records exactly the ones that were needed. *)
+RangeDevs == {"C32-empty-206", "C32-416-partly-satisfiable"}
 TGet == /\ IsEvent("get")
-        /\ \/ Strict /\ Get(Ev.h, Ev.acc, Ev.res)
-           \/ Deviate("C32-empty-206") /\ DevEmpty206(content, hasrep, rep, Ev.h, Ev.acc, Ev.res)
-           \/ Deviate("C32-416-partly-satisfiable") /\ Dev416(content, hasrep, rep, Ev.h, Ev.acc, Ev.res)
+        /\ \E q \in BOOLEAN, d \in {"strict"} \cup (RangeDevs \cap KF) :
+             LET acc == Accepts(Ev.af) \/ q IN
+             /\ q => "C32-gzip-q0" \in KF /\ Ev.af = "q0" /\ UseGz(Ev.res)
+             /\ CASE d = "strict" -> Admitted(content, hasrep, rep, Ev.h, acc, Ev.res)
+                  [] d = "C32-empty-206" -> DevEmpty206(content, hasrep, rep, Ev.h, acc, Ev.res)
+                  [] d = "C32-416-partly-satisfiable" -> Dev416(content, hasrep, rep, Ev.h, acc, Ev.res)
+             /\ used' = used \cup (IF q THEN {"C32-gzip-q0"} ELSE {}) \cup (IF d = "strict" THEN {} ELSE {d})
         /\ UNCHANGED vars
 TraceNext == TraceReset \/ TraceSkip \/ TRef \/ TGet
 TraceSpec == TraceInit /\ [][TraceNext]_tvars
